@@ -316,6 +316,11 @@ class World(BaseWorld):
                     except Exception:
                         pass
                     srP.abort_next = None
+                if live and aborted and plan['mode'] != 'scripted' and user['method'] in ('hybr', 'lm'):
+                    # MINPACK hands cost() a view of its own work array; after the aborted call that memory is gone and PRISM.x
+                    # dangles (reading it is undefined and differs from run to run) -- the simulated user cannot sensibly pass it on
+                    live = False
+                    ctx.probe('live_x_dangles_after_aborted_minpack_solve')
                 if live:
                     gP = P.x                             # whatever the object holds now (the aborted iterate after an abort)
                     ctx.probe('resolve_guess_is_the_live_x_object')
